@@ -213,7 +213,7 @@ class WeightedMean(SameArrayShapeMixin, Command):
 
         result = arrays[0] * weights[0]
         for weight, arr in zip(weights[1:], arrays[1:]):
-            result += arr * weight
+            result = result + arr * weight
 
         return result / sum(weights)
 
